@@ -75,8 +75,10 @@ def run(ctx):
     ctx.rule("R03.5", "a tag is emitted only on the consuming '>' transition; the Script arm resets the state; run() returns the pause immediately")
     ctx.rule("R03.6", "helper methods (get_char, peek, eat, pop_except_from, get_preprocessed_char, feed, run, end ...) equal the reviewed normal forms")
     ctx.guard("R03.1", "suspend", lambda: tr.suspend_before_effect(ctx, "R03.1", "html"))
+    ctx.guard("R03.1", "charref-stuck", lambda: tr.charref_needs_more_input_means_stuck(ctx, "R03.1", "html"))
     ctx.guard("R03.2", "temp_buf", lambda: tr.temp_buf_dataflow(ctx, "R03.2", "html"))
     ctx.guard("R03.3", "ignore_lf", lambda: tr.ignore_lf_rule(ctx, "R03.3", "html"))
+    ctx.guard("R03.3", "ignore_lf-consumed", lambda: tr.ignore_lf_consumed_when_seen(ctx, "R03.3", "html"))
     ctx.guard("R03.4", "bom", lambda: tr.bom_rule(ctx, "R03.4", "html"))
     ctx.guard("R03.5", "script-pause", lambda: r03_5(ctx))
 
